@@ -27,7 +27,7 @@ RULE = (
     "changes in a step that file is cut at byte offsets {0, 1, all offsets for small files, seeded offsets + line boundaries "
     "+-1, len-1, len} with the files changed earlier in the step new and everything else as before the step; a step in which "
     "one name disappears and its bytes appear under another name is an atomic rename (no intermediate state); "
-    "(line) an exception raised at every LINE event of save_calibrator_state of "
+    "(line) an exception raised at every LINE event of save_calibrator_state (for every second point the previous checkpoint was saved into the same folder by the same process rather than copied there) of "
     "both back-ends (sys.monitoring); (kill) SIGKILL injected by strace at every openat/write/pwrite64/ftruncate/rename/"
     "unlink/fsync touching a checkpoint file during a real save in a child process, both back-ends; (enospc) the same points "
     "with error=ENOSPC. Oracle: the folder is restored (Calibrator.restore_from_checkpoint and load_calibrator_state) and "
@@ -40,7 +40,7 @@ ASSUMPTIONS = [
     "byte-prefix model for partially written files; page-level reordering by the OS is not modelled",
     "strace injection needs ptrace (checked at run time; without it the kill/enospc engines are reported as unavailable and the check is inconclusive)",
 ]
-REQUIRED_COUNTERS = {"points_trunc": 100, "points_line_json": 30, "points_line_sqlite": 20, "points_kill": 20, "points_enospc": 10,
+REQUIRED_COUNTERS = {"line_points_with_previous_checkpoint_saved_in_process": 40, "points_trunc": 100, "points_line_json": 30, "points_line_sqlite": 20, "points_kill": 20, "points_enospc": 10,
                      "classified_error": 50, "classified_P_or_N": 20, "states": 4}
 SHARDS = {"quick": 16, "thorough": 16}
 SHARD_WATCHDOG = {"quick": 1500, "thorough": 10800}
@@ -99,7 +99,10 @@ def make_states(desc, ctx):
     orig = calmod.save_calibrator_state
 
     def spy(*a, **k):
-        captured.append((a[1:], k))
+        import copy
+
+        # a snapshot: the scheduler and the arrays handed to the save are live objects that the run keeps advancing
+        captured.append(copy.deepcopy((a[1:], k)))
         return orig(*a, **k)
 
     calmod.save_calibrator_state = spy
@@ -413,6 +416,14 @@ def engine_line(desc, ctx, out):
         shutil.rmtree(d, ignore_errors=True)
         for k in range(1, K + 1):
             d = fresh_copy(st, ctx, desc["backend"])
+            if desc["backend"] == "json" and st["argsP"] is not None and k % 2 == 0:
+                # the previous checkpoint was written into this very folder by this very process (as a running calibration does),
+                # not copied there: anything the module remembers about the folder from that save is in play
+                shutil.rmtree(d, ignore_errors=True)
+                aP, kP = st["argsP"]
+                with quiet():
+                    mod.save_calibrator_state(d, *aP, **kP)
+                out["counters"]["line_points_with_previous_checkpoint_saved_in_process"] = out["counters"].get("line_points_with_previous_checkpoint_saved_in_process", 0) + 1
             mon.set_local_events(TOOL, code, mon.events.LINE)
             state["n"], state["k"] = 0, k
             outcome = "saved"
